@@ -10,13 +10,14 @@
 //!   withdraw <u> <lp>
 //!   collect <u>
 //!   setfees <o|uN> <p> <s> <b>
+//!   setcol <o|uN> <0|1>                               UpdateConfig{fee_collector_addr}: 0 = `collector`, 1 = `collector2`
 //!   donate <u> <0|1|2> <amt>                          2 = LP tokens
 //!   swapbad <u> <dir> <off> <sent>                    ExecuteMsg::Swap naming a cw20 / mismatching funds
 //!   wdirect <u> <denom 0|1|2|3> <amt>                 ExecuteMsg::WithdrawLiquidity {} with one coin (asset denoms, ujunk) / 3 = no coin
 //!   wfake <u> <asset> <amt>                           cw20 asset `Send` carrying the WithdrawLiquidity hook
 //!   sfake <u> <amt>                                   LP-token `Send` carrying the Swap hook
 //! Observation
-//!   ok|err|panic b=.. pend=.. all=.. burn=.. col=.. chg=.. sent=.. brn=.. tot=.. sup= lpp= fees= pool= u0=a,b,lp …
+//!   ok|err|panic b=.. pend=.. all=.. burn=.. col=.. colb=.. chg=.. sent=.. brn=.. tot=.. sup= lpp= fees= pool= u0=a,b,lp …
 //! `chg` / `brn` are summed from the pair's swap events, `sent` from the collector's balance deltas,
 //! `tot` is the sum of all balances of the asset over the closed cast.
 use crate::common::*;
@@ -42,6 +43,7 @@ struct World {
     users: Vec<Addr>,
     owner: Addr,
     collector: Addr,
+    collector2: Addr,
     minter: Addr,
     /// constant-product pair (the C01 monitors apply); false = two-asset stableswap
     cp: bool,
@@ -58,6 +60,9 @@ struct Obs {
     all: [u128; 2],
     burn: [u128; 2],
     col: [u128; 2],
+    colb: [u128; 2],
+    /// the configured collector is `collector2`
+    use_b: bool,
     tot: [u128; 2],
     sup: u128,
     lpp: u128,
@@ -109,7 +114,7 @@ impl World {
         out
     }
     fn cast(&self) -> Vec<Addr> {
-        let mut v = vec![self.pair.clone(), self.collector.clone(), self.owner.clone(), self.minter.clone(), self.lp.clone()];
+        let mut v = vec![self.pair.clone(), self.collector.clone(), self.collector2.clone(), self.owner.clone(), self.minter.clone(), self.lp.clone()];
         v.extend(self.users.iter().cloned());
         v
     }
@@ -144,6 +149,8 @@ impl World {
             all: self.fees_of(&p::QueryMsg::ProtocolFees { asset_id: None, all_time: Some(true) }),
             burn: self.fees_of(&p::QueryMsg::BurnedFees { asset_id: None }),
             col: [self.bal(&self.collector, 0), self.bal(&self.collector, 1)],
+            colb: [self.bal(&self.collector2, 0), self.bal(&self.collector2, 1)],
+            use_b: cfg.fee_collector_addr == self.collector2,
             tot,
             sup: ti.total_supply.u128(),
             lpp: self.cw20_bal(&self.lp, &self.pair),
@@ -160,12 +167,13 @@ impl World {
         };
         let us: Vec<String> = o.users.iter().enumerate().map(|(i, u)| format!("u{i}={},{},{}", u[0], u[1], u[2])).collect();
         format!(
-            "b={} pend={} all={} burn={} col={} chg={} sent={} brn={} tot={} sup={} lpp={} fees={},{},{} pool={} {}",
+            "b={} pend={} all={} burn={} col={} colb={} chg={} sent={} brn={} tot={} sup={} lpp={} fees={},{},{} pool={} {}",
             p2(&o.bal),
             p2(&o.pend),
             p2(&o.all),
             p2(&o.burn),
             p2(&o.col),
+            p2(&o.colb),
             p2(&self.chg),
             p2(&self.sent),
             p2(&self.brn),
@@ -185,6 +193,7 @@ fn build(kinds: [bool; 2], fees: (u128, u128, u128), n: usize, a: u128, bb: u128
     let owner = Addr::unchecked("owner");
     let minter = Addr::unchecked("minter");
     let collector = Addr::unchecked("collector");
+    let collector2 = Addr::unchecked("collector2");
     let mut app: App = AppBuilder::new().with_bank(BankKeeper::new()).build(|_r, _a, _s| {});
     let pair_id = app.store_code(Box::new(
         ContractWrapper::new(terraswap_pair::contract::execute, terraswap_pair::contract::instantiate, terraswap_pair::contract::query)
@@ -280,7 +289,7 @@ fn build(kinds: [bool; 2], fees: (u128, u128, u128), n: usize, a: u128, bb: u128
             }
         }
     }
-    Ok(Some(World { app, pair, lp, kinds, tokens, users, owner, collector, minter, cp: ss.is_none(), chg: [0; 2], sent: [0; 2], brn: [0; 2] }))
+    Ok(Some(World { app, pair, lp, kinds, tokens, users, owner, collector, collector2, minter, cp: ss.is_none(), chg: [0; 2], sent: [0; 2], brn: [0; 2] }))
 }
 
 /// the amounts of the pair's `swap` response attributes: (return, spread, swap fee, protocol fee, burn fee)
@@ -444,8 +453,8 @@ impl PairEngine {
             mon.check(
                 "C07",
                 "pair_collector_balance_eq_sent",
-                post.col[k] == w.sent[k],
-                d(format!("after {op}: asset {k} collector holds {} but {} was collected", post.col[k], w.sent[k])),
+                post.col[k] + post.colb[k] == w.sent[k],
+                d(format!("after {op}: asset {k} collectors hold {} + {} but {} was collected", post.col[k], post.colb[k], w.sent[k])),
             );
         }
     }
@@ -596,8 +605,10 @@ impl PairEngine {
                 if let Outcome::Ok(_) = &o {
                     let post = w.observe();
                     for k in 0..2 {
-                        let delta = post.col[k] - pre.col[k];
-                        w.sent[k] += delta;
+                        // what the CONFIGURED collector received; the other collector must receive nothing
+                        let (delta, other) = if pre.use_b { (post.colb[k] - pre.colb[k], post.col[k] - pre.col[k]) } else { (post.col[k] - pre.col[k], post.colb[k] - pre.colb[k]) };
+                        w.sent[k] += delta + other;
+                        mon.check("C07", "pair_collect_to_configured_collector", other == 0, d(format!("{op}: asset {k}: the collector that is NOT configured received {other}")));
                         let above = pre.pend[k] > THRESHOLD;
                         mon.stat(if above { "collect_above_threshold" } else if pre.pend[k] == 0 { "collect_zero" } else { "collect_at_or_below_threshold" });
                         if pre.pend[k] + 2 >= THRESHOLD && pre.pend[k] <= THRESHOLD + 2 {
@@ -643,6 +654,30 @@ impl PairEngine {
                     mon.stat("setfees_ok");
                 }
                 o
+            }
+            ("setcol", 3) => {
+                let sender = if ws[1] == "o" {
+                    w.owner.clone()
+                } else {
+                    match ws[1].strip_prefix('u').and_then(|x| x.parse::<usize>().ok()).filter(|u| *u < n) {
+                        Some(u) => w.users[u].clone(),
+                        None => return "bad-op".into(),
+                    }
+                };
+                let target = match ws[2] {
+                    "0" => w.collector.to_string(),
+                    "1" => w.collector2.to_string(),
+                    _ => return "bad-op".into(),
+                };
+                let app = &mut w.app;
+                guarded(|| {
+                    app.execute_contract(
+                        sender.clone(),
+                        pair.clone(),
+                        &p::ExecuteMsg::UpdateConfig { owner: None, fee_collector_addr: Some(target.clone()), pool_fees: None, feature_toggle: None },
+                        &[],
+                    )
+                })
             }
             ("donate", 4) => {
                 let (u, which, amt) = match (user(ws[1]), ws[2].parse::<usize>(), ws[3].parse::<u128>()) {
@@ -722,7 +757,7 @@ impl PairEngine {
         let ok = matches!(out, Outcome::Ok(_));
         // ---- C07 burned amounts leave circulation / nothing else is created or destroyed
         if ok && ws[0] != "swap" && ws[0] != "swapbad" {
-            mon.check("C07", "pair_only_swaps_charge", post.all == pre.all && post.burn == pre.burn && post.tot == pre.tot && (ws[0] == "collect" || (post.pend == pre.pend && post.col == pre.col)), d(format!("{op}: {pre:?} -> {post:?}")));
+            mon.check("C07", "pair_only_swaps_charge", post.all == pre.all && post.burn == pre.burn && post.tot == pre.tot && (ws[0] == "collect" || (post.pend == pre.pend && post.col == pre.col && post.colb == pre.colb)), d(format!("{op}: {pre:?} -> {post:?}")));
         }
         Self::monitor_common(w, mon, &op, ok, &pre, &post);
         self.last_provide = lastp;
@@ -807,7 +842,7 @@ impl PairEngine {
             mon.check(
                 "C07",
                 "pair_burn_leaves_circulation",
-                post.tot[ask] + a[4] == pre.tot[ask] && post.tot[dir] == pre.tot[dir] && post.burn[ask] == pre.burn[ask] + a[4] && post.col == pre.col,
+                post.tot[ask] + a[4] == pre.tot[ask] && post.tot[dir] == pre.tot[dir] && post.burn[ask] == pre.burn[ask] + a[4] && post.col == pre.col && post.colb == pre.colb,
                 d(format!("{op}: burn fee {} but circulating {:?} -> {:?}, burned ledger {:?} -> {:?}", a[4], pre.tot, post.tot, pre.burn, post.burn)),
             );
         }
@@ -979,6 +1014,9 @@ impl PairEngine {
             format!("withdraw {u} {amt}")
         } else if x < 120 {
             format!("collect {u}")
+        } else if x < 122 {
+            let who = if rng.chance(5, 6) { "o".to_string() } else { format!("u{u}") };
+            format!("setcol {who} {}", rng.below(2))
         } else if x < 125 {
             let who = if rng.chance(5, 6) { "o".to_string() } else { format!("u{u}") };
             let (a, b, c) = if rng.chance(4, 5) { rng.valid_fees() } else { (rng.fee_share(), E18 - rng.below(3) as u128, rng.fee_share()) };
